@@ -524,6 +524,17 @@ def family_sizes(tier):
     return out
 
 
+def with_unused(d):
+    """the same definition with a control and a calibration value that are declared (and given noise / a value) but never used by
+    any expression; their names sort BEFORE the used ones, so anything that skips unused symbols shifts the used ones"""
+    d2 = dict(d, name=d["name"] + "-unused")
+    d2["control"] = list(d["control"]) + ["a0"]
+    d2["pnoise"] = [["a0", 2.0]] + [list(x_) for x_ in d["pnoise"]]
+    d2["calibration"] = list(d["calibration"]) + ["A0"]
+    d2["calmap"] = [list(x_) for x_ in d["calmap"]] + [["A0", 3.5]]
+    return d2
+
+
 def assumed(d, which="*", assumption="real"):
     """the same definition with its symbols declared with a sympy assumption (Symbol(name, real=True) is a different object from
     Symbol(name)); which: "*" for every symbol incl. dt, or a list of names"""
